@@ -1,16 +1,24 @@
 """C12 - loading a theory depends only on the library files, not on process history.   DESIGN.md section 6/C12
 
- I  spec/C12_Loader.tla (PlusCal)  the loader of logic/basic.py with the global theory, cache, timestamps, sys.modules, module import
-                                   side effects and injected parse failures; constants generated from the repository
-                                   (spec/gen/C12_Graph.tla: import graph, lazy-import table, traced module bodies)
- ->  harness/drivers/c12.py        every history runs in a fresh subprocess (loads with limits, module imports, injected failures,
-                                   file edits on a scratch copy of library/, a cyclic library), projecting theory.thy after each load
- T  spec/C12_LoaderTrace.tla       LoadSucceeds / MissingLimitIsError / CycleIsError / ReturnsExpected / SameAsFresh on every load event
+ I  spec/C12_Loader.tla (PlusCal)  the loader of logic/basic.py with the global theory, the cache (remembered imports, timestamps, parsed
+                                   content), sys.modules, module import side effects, injected parse failures AND the library files
+                                   themselves (created / removed / given other imports / items inserted and deleted at a position between
+                                   loads); mechanism deviations (norestore, tsfirst, stalemeta, keepentry, limitpos, staledeps) are chosen in
+                                   Init.  Instances: spec/C12_LoaderMC.tla (chain, edit, files: all short histories over 2-5 files) and the
+                                   real import graph (generated C12_Graph.tla: lazy-import table, traced module bodies)
+ ->  harness/drivers/c12.py        every history runs in a fresh subprocess (loads with limits, module imports, injected failures, file
+                                   operations on a scratch copy of library/), projecting theory.thy after each load
+ T  spec/C12_LoaderTrace.tla       LoadSucceeds / MissingLimitIsError / CycleIsError / MissingFileIsError / ReturnsExpected / SameAsFresh on
+                                   every load event; the state of the library is computed in TLA+ from the log of file operations
+ Histories: those on which a deviating mechanism goes wrong in the model (mapped to real theories), samples of the good mechanism,
+ sibling histories from the import graph, files created / removed, position-aware edits with limits, seeded families.
+ Generated modules and all scratch live in .work/C12/run_<pid>/ (concurrent runs do not collide).
 """
 import json
 import os
 import random
 import re
+import resource
 import shutil
 import subprocess
 import time
@@ -139,6 +147,7 @@ def gen_graph(wd):
              "cLazy == [t \\in cTheories |-> " + " ".join("IF t = %s THEN %s ELSE" % (q(t), q(m)) for t, m in sorted(lazy.items()) if m in bodies) + ' "none"]',
              "cBody == " + (" @@ ".join("(%s :> %s)" % (q(m), tla_seq(tla_seq([q(k), q(c)]) for k, c in bodies[m])) for m in sorted(bodies)) or "<<>>"),
              "cItems0 == [t \\in cTheories |-> <<1>>]",
+             "cOrigin == [t \\in cTheories |-> t]",
              "cLimits == [t \\in cTheories |-> {0}]",
              "gFixed == {{}}",
              "gAsCoded == {{}, {\"staledeps\"}}",
@@ -162,10 +171,12 @@ CONSTANTS
   OpModules = {%s}
   Present0 <- cTheories
   Items0 <- cItems0
+  Origin <- cOrigin
   LimitsOf <- cLimits
   FileOps = {}
   Variants <- gVariants
   GoodVariants <- gAsCoded
+  PrintGood = TRUE
   MaxOps = %d
   MaxDepth = 300
   AllowFault = %s
@@ -273,10 +284,11 @@ def real_edit_history(h, lib, tq):
 
 
 def real_files_history(h, lib, m):
-    """history of the model scope `files` on real theories m = {P, X, W, B}; A is a new file, a copy of X"""
-    a = "zz_c12m_" + m["X"]
-    names = dict(m, A=a)
-    ops = []
+    """history of the model scope `files` on real theories m = {P, X, B}; A is a new file, a copy of X; W is a new theory with one
+    new constant and the import P (there from the start, as in the model)"""
+    a, w = "zz_c12m_" + m["X"], "zz_c12m_w"
+    names = dict(m, A=a, W=w)
+    ops = new_theory(w, [m["P"]], "verif_c12m_w")
     for kind, f, _pos, imps in h["hist"] + [h["op"]]:
         if kind == "load":
             ops.append({"op": "load", "name": names[f]})
@@ -288,25 +300,21 @@ def real_files_history(h, lib, m):
             ops.append({"op": "reimport", "name": m["B"], "imports": [a if i == m["X"] else i for i in lib[m["B"]]["imports"]] if imps == ["A"]
                         else list(lib[m["B"]]["imports"])})
         elif kind == "reimport" and f == "X":
-            ops.append({"op": "reimport", "name": m["X"], "imports": lib[m["X"]]["imports"] + ([m["W"]] if "W" in imps else [])})
+            ops.append({"op": "reimport", "name": m["X"], "imports": lib[m["X"]]["imports"] + ([w] if "W" in imps else [])})
         else:
             return None
     return ops
 
 
 def files_mappings(lib, sizes):
-    """real theories of the shape P <- X <- B, P <- W of the model scope `files` (W outside the closure of B)"""
+    """real theories of the shape P <- X <- B of the model scope `files`"""
     out = []
     for x in sorted(lib):
         if len(lib[x]["imports"]) != 1:
             continue
-        p = lib[x]["imports"][0]
         for b in sorted(lib):
-            if lib[b]["imports"] != [x] or len(lib[b]["items"]) < 5:
-                continue
-            for w in sorted(lib):
-                if w != x and lib[w]["imports"] == [p] and w not in closure_of(lib, [b]) and lib[w]["items"]:
-                    out.append((load_cost(lib, sizes, [b, w]), {"P": p, "X": x, "W": w, "B": b}))
+            if lib[b]["imports"] == [x] and len(lib[b]["items"]) >= 5:
+                out.append((load_cost(lib, sizes, [b]), {"P": lib[x]["imports"][0], "X": x, "B": b}))
     return sorted(out, key=lambda c: (c[0], sorted(c[1].items())))
 
 
@@ -418,9 +426,14 @@ def event_key(e):
     return "%s after %s" % (json.dumps([e["op"], e["name"], e["limit"]]), json.dumps(hist))
 
 
+def cpu_children():
+    ru = resource.getrusage(resource.RUSAGE_CHILDREN)
+    return ru.ru_utime + ru.ru_stime
+
+
 def clean_stale_runs():
     base = work_dir("C12")
-    for d in base.glob("run_*"):
+    for d in list(base.glob("run_*")) + list(base.glob("replay_*")):
         try:
             pid = int(d.name.split("_")[1])
             os.kill(pid, 0)
@@ -435,9 +448,11 @@ THM_KINDS = ("thm", "thm.ax")
 
 def fam_siblings(lib, sizes, quick, rnd):
     """(1) for every theory A with imports [.., X, .., Y, ..]: [load A; load Y] and [load Y; load A; load Y].
-    A pair is `fresh` when the import walk of A meets Y for the first time as a later sibling (Y is not below an earlier import) and Y
-    does not itself need everything the earlier imports need: the result of the walk of A and that of Y differ in more than a suffix.
-    quick: both histories for the fresh pairs up to a load cost, [load A; load Y] for two more (seeded) pairs; thorough: all."""
+    A pair is `fresh` when the import walk of A meets theories below Y for the first time under Y (they are not below an earlier
+    import) and Y does not itself need everything the earlier imports need: what the walk of A collected before it came to those
+    theories is not part of what the walk of Y alone collects.
+    quick: both histories for the fresh pairs up to a load cost, [load A; load Y] for two more (seeded) pairs; thorough: all pairs, and
+    for the fresh ones also [load A; load Z] for the theories Z first met under Y."""
     pairs, fresh = [], []
     for a in sorted(lib):
         imps = lib[a]["imports"]
@@ -445,22 +460,25 @@ def fam_siblings(lib, sizes, quick, rnd):
             y, before = imps[k], closure_of(lib, imps[:k])
             p = (load_cost(lib, sizes, [a]), a, y)
             pairs.append(p)
-            if y not in before and not set(before) <= set(closure_of(lib, [y])):
-                fresh.append(p)
+            if not set(closure_of(lib, lib[y]["imports"])) <= set(before) and not set(before) <= set(closure_of(lib, [y])):
+                fresh.append(p + ([z for z in closure_of(lib, lib[y]["imports"]) if z not in before],))
     pairs.sort()
     fresh.sort()
     out = []
+    both = lambda a, y, cost: [([{"op": "load", "name": a}, {"op": "load", "name": y}], cost),
+                               ([{"op": "load", "name": y}, {"op": "load", "name": a}, {"op": "load", "name": y}], cost)]
     if quick:
-        for cost, a, y in [p for p in fresh if p[0] <= 5_000_000] or fresh[:1]:
-            out.append(([{"op": "load", "name": a}, {"op": "load", "name": y}], cost))
-            out.append(([{"op": "load", "name": y}, {"op": "load", "name": a}, {"op": "load", "name": y}], cost))
-        rest = [p for p in pairs if p not in fresh and p[0] <= 5_000_000]
-        for cost, a, y in rnd.sample(rest, min(1, len(rest))) + rnd.sample([p for p in fresh if p[0] > 5_000_000], min(1, max(0, len(fresh) - 1))):
+        for cost, a, y, _zs in [p for p in fresh if p[0] <= 9_000_000] or fresh[:1]:
+            out += both(a, y, cost)
+        rest = [p for p in pairs if p[:3] not in [f[:3] for f in fresh] and p[0] <= 5_000_000]
+        for cost, a, y in rnd.sample(rest, min(2, len(rest))):
             out.append(([{"op": "load", "name": a}, {"op": "load", "name": y}], cost))
     else:
         for cost, a, y in pairs:
-            out.append(([{"op": "load", "name": a}, {"op": "load", "name": y}], cost))
-            out.append(([{"op": "load", "name": y}, {"op": "load", "name": a}, {"op": "load", "name": y}], cost))
+            out += both(a, y, cost)
+        for cost, a, y, zs in fresh:
+            for z in zs[-4:]:
+                out.append(([{"op": "load", "name": a}, {"op": "load", "name": z}], cost))
     return out
 
 
@@ -471,7 +489,8 @@ def fam_limits(lib, sizes, quick, rnd):
     if not cands:
         return []
     small = min(cands, key=lambda t: load_cost(lib, sizes, [t]))
-    chosen = [(small, "all")] if quick else [(t, "all") for t in cands]
+    cands.sort(key=lambda t: (load_cost(lib, sizes, [t]), t))
+    chosen = [(small, "all")] if quick else [(t, "all") for t in cands[:4] + rnd.sample(cands[4:], min(1, len(cands[4:])))]
     out = []
     n = 0
     for t, which in chosen:
@@ -492,16 +511,20 @@ def fam_limits(lib, sizes, quick, rnd):
             n += 1
             c = "verif_c12_%d" % n
             hs = [[ld, {"op": "touch", "name": t, "const": c, "before": L}, ld, {"op": "load", "name": t}]]
+            more = [[{"op": "touch", "name": t, "const": c, "at": 0}, ld, {"op": "touch", "name": t, "delete": 0}, ld]]
             if k > 0:
-                hs.append([ld, {"op": "touch", "name": t, "const": c, "at": 0}, ld])
-            hs.append([{"op": "touch", "name": t, "const": c, "at": 0}, ld, {"op": "touch", "name": t, "delete": 0}, ld])
+                more.append([ld, {"op": "touch", "name": t, "const": c, "at": 0}, ld])
             before = [j for j in thm if j < k]
             if before:
                 hs.append([ld, {"op": "touch", "name": t, "delete_item": its[before[-1]]}, ld])
             if k in thm:
                 hs.append([ld, {"op": "touch", "name": t, "delete_item": L}, ld, {"op": "load", "name": t}])
-            if quick and tag != "mid":          # quick: every shape at the middle item, one (seeded) shape at the first / last item
-                hs = [hs[0] if tag == "first" else rnd.choice(hs[1:])]
+            if not quick:
+                hs += more
+            elif tag == "mid":                  # quick: insertion, deletion, vanishing limit and one more (seeded) shape at the middle item,
+                hs.append(rnd.choice(more))     # one shape at the first / last item
+            else:
+                hs = [hs[0] if tag == "first" else rnd.choice(hs[1:] + more)]
             out += [(h, cost) for h in hs]
     return out
 
@@ -518,7 +541,8 @@ def fam_files(lib, sizes, quick, rnd):
     triples.sort()
     if not triples:
         return []
-    chosen = [(triples[0], True)] if quick else [(t, True) for t in triples if t[0] <= 9_000_000]
+    afford = [t for t in triples if t[0] <= 9_000_000]
+    chosen = [(triples[0], True)] if quick else [(t, True) for t in afford[:8] + rnd.sample(afford[8:], min(2, len(afford[8:])))]
     out = []
     for (cost, x, b), full in chosen:
         a = "zz_c12_" + x
@@ -533,19 +557,18 @@ def fam_files(lib, sizes, quick, rnd):
         if not quick:
             out.append(([mk, re_b, lb, la], cost))
             out.append(([lb, mk, re_b, lb], 2 * cost))
-    # a dependency U of a loaded theory T is given one more import W
-    deps = []
-    for t in sorted(lib):
-        for u in lib[t]["imports"]:
-            for w in sorted(lib):
-                if w not in closure_of(lib, [t]) and u not in closure_of(lib, [w]) and lib[w]["items"]:
-                    deps.append((load_cost(lib, sizes, [t, w]), t, u, w))
-    deps.sort()
-    pick = [rnd.choice(deps[:40])] if quick and deps else deps[:40]
-    for cost, t, u, w in pick:
+    # a dependency U of a loaded theory T is given one more import W.  W is a new theory with one new constant: the items of U and T
+    # parse in the enlarged context exactly as before (an existing theory as W could shadow a name they use)
+    deps = sorted((load_cost(lib, sizes, [t]), t, u) for t in lib for u in lib[t]["imports"] if len(lib[t]["items"]) >= 3)
+    for cost, t, u in ([] if quick else deps[:6] + rnd.sample(deps[6:60], min(6, len(deps[6:60])))):       # (quick: the model-derived histories of the deviation staledeps are of this shape)
         lt = {"op": "load", "name": t}
-        out.append(([lt, {"op": "reimport", "name": u, "imports": lib[u]["imports"] + [w]}, lt, lt], cost))
+        out.append((new_theory("zz_c12_w", lib[u]["imports"][:1], "verif_c12_w") +
+                    [lt, {"op": "reimport", "name": u, "imports": lib[u]["imports"] + ["zz_c12_w"]}, lt, lt], 2 * cost))
     return out
+
+
+def new_theory(name, imports, const):
+    return [{"op": "create", "name": name, "copy": None, "imports": list(imports)}, {"op": "touch", "name": name, "const": const}]
 
 
 def run(rep, tier):
@@ -555,18 +578,23 @@ def run(rep, tier):
     wd = work_dir("C12", "run_%d" % os.getpid(), clean=True)       # per-process scratch: concurrent runs do not collide
     gd = wd / "gen"
     gd.mkdir()
-    t_start = [time.time()]
+    t_start = [time.time(), cpu_children()]
 
     def phase(name):
-        rep.notes.setdefault("phases_s", []).append([name, round(time.time() - t_start[0], 1)])
-        t_start[0] = time.time()
-    rep.rule = ("Histories of loader operations (load with/without limit, module import, load with injected parse failure, file edit, "
-                "cyclic library), each executed in a fresh subprocess of the real code; sources: counterexample and sample histories of "
-                "the TLC model on the real import graph, plus seeded families. Non-trivial = a load event judged by the trace "
-                "specification; distinct by (history, operation, outcome, projection digest).")
+        rep.notes.setdefault("phases_wall_cpu_s", []).append([name, round(time.time() - t_start[0], 1), round(cpu_children() - t_start[1], 1)])
+        t_start[0], t_start[1] = time.time(), cpu_children()
+    rep.rule = ("Histories of loader operations (load with/without limit, module import, load with injected parse failure, file created / "
+                "removed / given other imports, item inserted / deleted at a position), each executed in a fresh subprocess of the real code; "
+                "sources: the histories on which a deviating mechanism goes wrong in the TLC model (small scopes with file operations mapped to "
+                "real theories, and the real import graph), samples of the good mechanism, sibling histories of the import graph, seeded "
+                "families. Non-trivial = a load event judged by the trace specification; distinct by (history, operation, outcome, projection).")
     rep.assumptions = ["canonical reference = fresh process with all side-effecting modules imported first; the name-level Expected set is "
-                       "computed by TLC from the library files' import graph and per-item extension names",
-                       "file edits are made on a scratch copy of library/ (path helpers redirected); nothing under /repo is written"]
+                       "computed by TLC from the library files' import graph, per-item extension names and the log of file operations",
+                       "file operations are made on a scratch copy of library/ (path helpers redirected); nothing under /repo is written",
+                       "the item tables say which items parse in the original context of their file: a load is examined only when every "
+                       "file of its closure is parsed in a context with the original names plus constants the history inserted (aliases in "
+                       "place of the file they copy, new theories with a new constant as additional imports, deleted theorems)",
+                       "every version of a file has a modification time of its own"]
     # ---------------- design level: the loader model on small instances (all histories) and on the real import graph
     # small scopes (one JVM at a time, in the background while the repository is traced): chain = loads / faults / module imports,
     # edit = items inserted / deleted with limits, files = files created / removed / given other imports
@@ -576,7 +604,7 @@ def run(rep, tier):
         for scope, cfg in (("fixed", "C12_LoaderMC_fixed.cfg"), ("chain", "C12_LoaderMC_ascoded.cfg"),
                            ("edit", "C12_LoaderMC_edit.cfg" if quick else "C12_LoaderMC_edit4.cfg"),
                            ("files", "C12_LoaderMC_files.cfg" if quick else "C12_LoaderMC_files5.cfg")):
-            small[scope] = tlc("C12_LoaderMC", cfg, wd=wd / "mc", workers=2)
+            small[scope] = tlc("C12_LoaderMC", cfg, wd=wd / "mc", workers=1)
     bg = ThreadPoolExecutor(max_workers=1)
     fut = bg.submit(small_runs)
     g, bodies, lazy = gen_graph(wd)
@@ -588,9 +616,9 @@ def run(rep, tier):
     phase("small models + repository tracing")
     model_hists = []          # (family, [operations])
     for scope, what in (("fixed", "4-theory chain, mechanism with the property, all histories of <= 3 operations"),
-                        ("chain", "4-theory chain, 6 mechanisms, all histories of <= 2 operations"),
-                        ("edit", "P <- Q, item edits and limits, 4 mechanisms, all histories of <= %d operations" % (3 if quick else 4)),
-                        ("files", "P <- X <- B, P <- W, new file A: create / remove / reimport, 6 mechanisms, all histories of <= %d operations"
+                        ("chain", "4-theory chain, 4 deviating mechanisms, all histories of <= 2 operations"),
+                        ("edit", "P <- Q, item edits and limits, 2 mechanisms, all histories of <= %d operations" % (3 if quick else 4)),
+                        ("files", "P <- X <- B, P <- W, new file A: create / remove / reimport, 4 mechanisms, all histories of <= %d operations"
                          % (4 if quick else 5))):
         r = small[scope]
         if r.error:
@@ -607,7 +635,7 @@ def run(rep, tier):
         require(specific(bads[scope], var), "C12 model: deviation %s must violate Good in scope %s" % (var, scope))
         rep.notes.setdefault("spec_mutants", []).append({"mutant": "loader_" + var, "scope": scope, "caught_by": ["Good"]})
     # the discriminating histories of the scopes with file operations, on real theories
-    n_model = 2 if quick else 12
+    n_model = 1 if quick else 12
     cands = sorted((t for t in lib if lib[t]["imports"] and load_cost(lib, sizes, [t]) <= 3_400_000
                     and sum(1 for it in lib[t]["items"] if it[0] in THM_KINDS and it[1]) >= 3), key=lambda t: (load_cost(lib, sizes, [t]), t))
     maps = files_mappings(lib, sizes)
@@ -651,11 +679,11 @@ def run(rep, tier):
     for var in sorted(gbad):
         hs = list(gbad[var])
         rnd.shuffle(hs)
-        for h in hs[:(2 if quick else 40)]:
+        for h in hs[:(2 if quick else 30)]:
             model_hists.append(("model:" + var, [op_of(k, t) for k, t, _l, _a in h["hist"] + [h["op"]]]))
     good_lines = [h for h in glines if h["var"] == "staledeps" and h["op"][0] == "load"]
     rnd.shuffle(good_lines)
-    for h in good_lines[:(2 if quick else 60)]:
+    for h in good_lines[:(2 if quick else 40)]:
         model_hists.append(("model:sample", [op_of(k, t) for k, t, _l, _a in h["hist"] + [h["op"]]]))
     phase("model on the real graph")
     # ---------------- histories to execute
@@ -704,12 +732,14 @@ def run(rep, tier):
     add([{"op": "load", "name": "nat"}, {"op": "touch", "name": "nat", "const": "verif_new_c3", "mtime_delta": -10},
          {"op": "load", "name": "nat"}])
     # a file is given another import list after it (or its new import) was loaded: the metadata must follow the files
-    if "expr" in lib and "set" in lib and "set" not in lib["expr"]["imports"]:
-        more = lib["expr"]["imports"] + ["set"]
-        add([{"op": "load", "name": "expr"}, {"op": "reimport", "name": "expr", "imports": more}, {"op": "load", "name": "expr"}])
+    # (the new import is a new theory with one new constant: the items of the file parse as before)
+    if "expr" in lib:
+        w = new_theory("zz_c12_v", lib["expr"]["imports"][:1], "verif_new_c4")
+        more = lib["expr"]["imports"] + ["zz_c12_v"]
+        add(w + [{"op": "load", "name": "expr"}, {"op": "reimport", "name": "expr", "imports": more}, {"op": "load", "name": "expr"}])
         if not quick:
-            add([{"op": "load", "name": "set"}, {"op": "reimport", "name": "expr", "imports": more}, {"op": "load", "name": "expr"},
-                 {"op": "load", "name": "set"}])
+            add(w + [{"op": "load", "name": "zz_c12_v"}, {"op": "reimport", "name": "expr", "imports": more}, {"op": "load", "name": "expr"},
+                     {"op": "load", "name": "zz_c12_v"}])
     # an import cycle: nat imports logic; logic is given the import nat (before the first load / after a load)
     cyc = {"op": "reimport", "name": "logic", "imports": lib["logic"]["imports"] + ["nat"]}
     add([cyc, {"op": "load", "name": "nat"}])
@@ -720,7 +750,7 @@ def run(rep, tier):
         for ops, cost in gen(lib, sizes, quick, rnd):
             add(ops, cost=cost, fam=fam)
     if not quick:
-        for _ in range(60):
+        for _ in range(40):
             n = rnd.randint(2, 4)
             ops = []
             for _ in range(n):
@@ -767,19 +797,7 @@ def run(rep, tier):
     if items_tab is None or base is None:
         # even the canonical history cannot load: fall back to item tables without extension names (ReturnsExpected unevaluable)
         items_tab = items_tab or {}
-    lines = ["------------------------------ MODULE C12_Items ------------------------------",
-             "(* GENERATED: import graph and item tables (kind, name, parsed?, extension names) of the library files *)",
-             "EXTENDS Naturals, Sequences, TLC",
-             "cImports == " + " @@ ".join("(%s :> %s)" % (q(t), tla_seq(q(i) for i in lib[t]["imports"])) for t in sorted(lib)),
-             "cBase == {" + ", ".join("<<%d, %s>>" % (k, q(n)) for k, n in (base or [])) + "}",
-             "cItems == " + (" @@ ".join("(%s :> %s)" % (q(t), tla_seq(
-                 "<<%s, %s, %s, %s>>" % (q(ty), q(nm), "TRUE" if ok else "FALSE", tla_seq("<<%d, %s>>" % (k, q(n)) for k, n in exts))
-                 for ty, nm, ok, exts in items_tab[t])) for t in sorted(items_tab)) or "<<>>"),
-             "============================================================================="]
-    (gd / "C12_Items.tla").write_text("\n".join(lines) + "\n")
-    for fn in ("C12_LoaderTrace.tla", "C12_LoaderTrace.cfg"):
-        shutil.copy(SPEC / fn, gd / fn)
-    tspec = str(gd / "C12_LoaderTrace.tla")
+    tspec = write_items_module(gd, lib, base, items_tab)
     events = []
     tid = 0
     for s, evs in zip(scripts, results):
@@ -822,7 +840,7 @@ def run(rep, tier):
             c["tid"] = 10 ** 6 + len(bad)
             bad.append(c)
     for e in events:
-        if e["op"] == "load" and e["outcome"] == "ok" and e["tid"] in nts and any(x[0] == "ins" for x in e["fs"]) and len(bad) < 2 \
+        if e["op"] == "load" and e["outcome"] == "ok" and e["tid"] in nts and e["fs"] and all(x[0] == "ins" for x in e["fs"]) and len(bad) < 2 \
                 and e["limit"] == ["none", "none"]:
             c = json.loads(json.dumps(e))
             c["fs"] = [x for x in c["fs"] if x[0] != "ins"]
@@ -835,23 +853,62 @@ def run(rep, tier):
     require(all(jf.get(f, 0) >= 3 for f in ("sibling", "files", "limits")), "C12: a history family is not judged: %s" % jf)
 
 
+def write_items_module(gd, lib, base, items_tab):
+    lines = ["------------------------------ MODULE C12_Items ------------------------------",
+             "(* GENERATED: import graph and item tables (kind, name, parsed?, extension names) of the library files *)",
+             "EXTENDS Naturals, Sequences, TLC",
+             "cImports == " + " @@ ".join("(%s :> %s)" % (q(t), tla_seq(q(i) for i in lib[t]["imports"])) for t in sorted(lib)),
+             "cBase == {" + ", ".join("<<%d, %s>>" % (k, q(n)) for k, n in (base or [])) + "}",
+             "cItems == " + (" @@ ".join("(%s :> %s)" % (q(t), tla_seq(
+                 "<<%s, %s, %s, %s>>" % (q(ty), q(nm), "TRUE" if ok else "FALSE", tla_seq("<<%d, %s>>" % (k, q(n)) for k, n in exts))
+                 for ty, nm, ok, exts in items_tab[t])) for t in sorted(items_tab)) or "<<>>"),
+             "============================================================================="]
+    (gd / "C12_Items.tla").write_text("\n".join(lines) + "\n")
+    for fn in ("C12_LoaderTrace.tla", "C12_LoaderTrace.cfg"):
+        shutil.copy(SPEC / fn, gd / fn)
+    return str(gd / "C12_LoaderTrace.tla")
+
+
 def replay(path):
+    """re-execute the recorded history against the current tree and judge its events with the trace specification again"""
     obj = json.load(open(path))
     if obj.get("kind") != "event":
         print(json.dumps(obj, indent=1)[:3000])
         return 1
     e = obj["event"]
-    print("history:", e["hist"], "then", e["op"], e.get("name"), e.get("limit"), "->", e["outcome"], e.get("message", ""))
-    print("clause:", obj["clause"], "; re-run `./check C12 quick` to re-execute the histories against the current tree")
-    wd = work_dir("C12", "replay1", clean=True)
-    ops = [op_of(k, t) if k not in ("touch", "reimport") else None for k, t in e["hist"]]
-    if None in ops or e.get("cyclic") or e.get("edits") or e.get("reimports"):
-        return 1
+    ops = [json.loads(h[2]) for h in e["hist"]]
     lim = e.get("limit")
     ops.append({"op": "load", "name": e["name"], "limit": None if lim == ["none", "none"] else ("start" if lim == ["start", "start"] else lim)})
-    evs = run_history(script_of("replay", ops), wd)
+    print("history:", [short_op(o) for o in ops[:-1]], "then", short_op(ops[-1]), "->", e["outcome"], e.get("message", ""))
+    print("clause:", obj["clause"])
+    wd = work_dir("C12", "replay_%d" % os.getpid(), clean=True)
+    gd = wd / "gen"
+    gd.mkdir()
+    gp = wd / "graph.json"
+    run_driver("c12", ["graph", gp])
+    lib = json.load(open(gp))["library"]
+    # item tables of the library theories the history touches, from a fresh process
+    names = sorted(set(closure_of(lib, [n for n in names_in(ops) if n in lib] + ["logic_base"])))
+    cevs = run_history(script_of("canon", [{"op": "load", "name": "logic_base", "limit": "start"}, {"op": "items", "names": names}]), wd)
+    require(cevs[0]["outcome"] == "ok" and cevs[1].get("items"), "C12 replay: the reference process cannot load: %s" % cevs[1].get("message"))
+    tspec = write_items_module(gd, lib, cevs[0]["installed"], cevs[1]["items"])
+    s = script_of("replay", ops)
+    if any(o["op"] in ("touch", "reimport", "create", "remove") for o in ops):
+        d = wd / "lib_replay"
+        shutil.copytree(REPO / "library", d)
+        s["lib"] = str(d)
+    evs = run_history(s, wd)
+    for k, x in enumerate(evs):
+        x.update({"tid": k + 1, "canon": "none", "key": "replay"})
+        x.setdefault("name", "")
+        x.setdefault("limit", ["none", "none"])
     print("now:", [(x["op"], x.get("name"), x["outcome"], x.get("message", "")[:80]) for x in evs])
-    if evs[-1]["outcome"] != "ok" or (e["canon"] != "none" and evs[-1]["digest"] != e["canon"]):
-        print("VIOLATION property=C12 replay=%s" % path)
+    evp = wd / "events.ndjson"
+    write_events(evp, evs)
+    v = validate_trace(tspec, evp, wd=wd / "tv", nchunks=1)
+    shutil.rmtree(wd / "lib_replay", ignore_errors=True)
+    if v["fails"]:
+        print("VIOLATION property=C12 replay=%s  # %s" % (path, json.dumps(v["fails"])))
         return 1
+    print("no clause fails on the re-executed history (%d load events judged)" % len(v["nontrivial"]))
     return 0
